@@ -5,14 +5,7 @@ From HTA.model Require Import Loader_Model.
 From HTA.proof Require Import Scale.
 Open Scope Z_scope.
 
-Lemma leb_scale k a b : 0 < k -> (k * a <=? k * b) = (a <=? b).
-Proof. intro Hk. destruct (Z.leb_spec a b); destruct (Z.leb_spec (k * a) (k * b)); try reflexivity; nia. Qed.
 
-Lemma maxZ_scale k d l : 0 <= k -> maxZ (k * d) (map (Z.mul k) l) = k * maxZ d l.
-Proof.
-  intro Hk. revert d. induction l as [|x r IH]; intro d; cbn [map maxZ]; [reflexivity|].
-  rewrite IH, max_scale by exact Hk. reflexivity.
-Qed.
 
 Lemma step_of_scale k steps t : 0 < k -> step_of (scale_evs k steps) (k * t) = step_of steps t.
 Proof.
@@ -49,8 +42,6 @@ Qed.
 Lemma host_steps_scale k l : host_steps (scale_evs k l) = scale_evs k (host_steps l).
 Proof. unfold host_steps, scale_evs. apply filter_map_comm. reflexivity. Qed.
 
-Lemma maxZ0_scale k l : 0 <= k -> maxZ 0 (map (Z.mul k) l) = k * maxZ 0 l.
-Proof. intro Hk. rewrite <- (maxZ_scale k 0 l Hk). rewrite Z.mul_0_r. reflexivity. Qed.
 
 Lemma keep_host_scale k incl l e : 0 < k -> keep_host incl (scale_evs k l) (scale_ev k e) = keep_host incl l e.
 Proof.
@@ -71,8 +62,6 @@ Proof.
   apply filter_map_comm. intro e. apply keep_host_scale. exact Hk.
 Qed.
 
-Lemma existsb_map_g {A B} (f : A -> B) (p : B -> bool) (l : list A) : existsb p (map f l) = existsb (fun x => p (f x)) l.
-Proof. induction l as [|x r IH]; cbn [map existsb]; [reflexivity|]. rewrite IH. reflexivity. Qed.
 
 Lemma kept_dev_scale k incl l : 0 < k -> kept_dev incl (scale_evs k l) = scale_evs k (kept_dev incl l).
 Proof.
@@ -80,7 +69,7 @@ Proof.
   transitivity (filter (fun g => existsb (fun c => corr c =? corr g) (scale_evs k (kept_host incl l)))
                        (filter is_dev (map (scale_ev k) l))); [reflexivity|].
   rewrite (filter_map_comm (scale_ev k) is_dev is_dev) by reflexivity.
-  apply filter_map_comm. intro g. unfold scale_evs. rewrite existsb_map_g. reflexivity.
+  apply filter_map_comm. intro g. unfold scale_evs. rewrite existsb_map_f. reflexivity.
 Qed.
 
 Theorem C12_trim_scale k incl l : 0 < k -> trim incl (scale_evs k l) = scale_evs k (trim incl l).
